@@ -260,7 +260,7 @@ RunResult eng_walk_run_cfg(const RunSpec &spec, const std::string &prop, bool en
         for (int k = 0; k < W_KINDS; ++k) if (cx.resp[k].empty()) ((void **) &h)[k] = NULL;
         FaultEnum fe; fe.enabled = enumerate; fe.quick = spec.tier != "thorough"; fe.prop = prop; fe.seed = run_seed_of(spec);
         WCtx run_cx = cx;
-        fe.watch_db = cif->db;
+        fe.watch_db = cif->db; fe.idempotent = true;
         int wrc = fe.call("cif_walk", [&]() { run_cx = cx; return cif_walk(cif, &h, &run_cx); });
         ev("cif_walk -> %s, %zu callbacks, reenter=%d all_continue=%d", rc_name(wrc), run_cx.evts.size(), cx.reenter ? 1 : 0, all_continue ? 1 : 0);
         if (g_log.keep_text) { std::string t; for (auto &e : run_cx.evts) t += strprintf("%s(%s)->%d ", WKN[e.kind], e.id.substr(0, 24).c_str(), e.resp); g_log.add("trace: " + t.substr(0, 6000)); }
